@@ -63,16 +63,17 @@ def run_variant(args):
         if fired:
             f = unlisted[0]
             return name, "FALSE-ALARM", "%s %s" % (f.rule, f.key)
-        return name, "ok", "silent"
+        return name, "ok", "silent obligations=%d" % len(chk.obligations)
     except Exception as e:
         return name, "error", "%s: %s | %s" % (type(e).__name__, e, traceback.format_exc().splitlines()[-2:])
 
 
 def global_twins(ctx, prop):
     """behaviour-preserving whole-tree transformations every check must stay silent on"""
-    from .transforms import alpha_rename, reformat
+    from .transforms import alpha_rename, flip_ifs, reformat
     out = []
-    for name, fn in (("twin-whole-tree-reformatted", reformat), ("twin-all-locals-renamed", alpha_rename)):
+    for name, fn in (("twin-whole-tree-reformatted", reformat), ("twin-all-locals-renamed", alpha_rename),
+                     ("twin-two-armed-ifs-flipped", flip_ifs)):
         ov = fn(ctx.repo)
         out.append(Variant(name, prop, [(rel, None, txt) for rel, txt in sorted(ov.items())], "silent"))
     return out
@@ -89,7 +90,18 @@ def run_selftest(ctx, chk, variants):
         for r in ex.map(run_variant, args):
             results.append(r)
     st = {"variants": len(results), "ok": 0, "skipped": 0, "details": []}
+    base_n = chk.extra.get("quick_obligations", len(chk.obligations))
     for name, status, info in results:
+        if status == "ok" and name.startswith("twin-") and name in ("twin-whole-tree-reformatted", "twin-all-locals-renamed", "twin-two-armed-ifs-flipped"):
+            # a whole-tree twin must be examined exactly as the real tree is: fewer obligations mean a rule went vacuous
+            import re as _re
+            m = _re.search(r"obligations=(\d+)", info)
+            if m and int(m.group(1)) != base_n:
+                status = "VACUOUS"
+                info = "%s obligations on the twin, %d on the tree: a rule stopped matching" % (m.group(1), base_n)
+                chk.error("selftest", "variant %s: %s (%s)" % (name, status, info))
+                st["details"].append({"variant": name, "status": status, "info": info[:160]})
+                continue
         if status == "ok":
             st["ok"] += 1
         elif status == "skipped":
